@@ -112,12 +112,15 @@ class Pool:
         ok = 0
         bad = []
         total = 0
+        self.skipped = 0
         for fn in self.files:
             with open(fn, "rb") as f:
                 for line in f:
                     total += 1
                     if line.startswith(b'{"i":') and b'"ok":1' in line[:40]:
                         ok += 1
+                        if b'"skipped"' in line:
+                            self.skipped += 1
                     else:
                         try:
                             bad.append(json.loads(line))
@@ -127,14 +130,14 @@ class Pool:
 
 
 def run_tlc_export(name, module, cfgpath, outdir, tier, asan_stride, tlc_workers=None, timeout=3000, max_scripts=None, simulate=None, stride=1,
-                   exes=None, depth=40):
+                   exes=None, depth=40, driver_args=()):
     """Run TLC on module/cfg, stream every exported behaviour into plain (all) and
     sanitizer (every asan_stride-th) driver pools built from the working tree."""
     exe_plain, exe_asan = exes if exes else (vlib.build_driver("plain"), vlib.build_driver("asan"))
     nplain = max(2, NCPU - 6)
     nasan = 4
-    pool = Pool(exe_plain, nplain, outdir, "plain")
-    apool = Pool(exe_asan, nasan, outdir, "asan", env=vlib.ASAN_ENV)
+    pool = Pool(exe_plain, nplain, outdir, "plain", args=driver_args)
+    apool = Pool(exe_asan, nasan, outdir, "asan", env=vlib.ASAN_ENV, args=driver_args)
     meta = os.path.join(outdir, "tlc_meta")
     shutil.rmtree(meta, ignore_errors=True)
     cmd = ["java", "-XX:+UseParallelGC", "-Xmx12g", "-cp", vlib.TLA_CP, "tlc2.TLC", "-workers", str(tlc_workers or 8),
@@ -196,7 +199,7 @@ def run_tlc_export(name, module, cfgpath, outdir, tier, asan_stride, tlc_workers
         b["flavor"] = "asan"
     res = {"family": name, "tlc": st, "scripts": nscripts, "replayed": total + atotal, "ok": ok + aok, "bad": bad + abad,
            "samples": [unescape_beh(s) for s in samples], "wall_tlc": time.time() - t0, "asan_replayed": atotal,
-           "replay_stride": stride, "export_sampling": open(cfgpath).read().count("ExportStride") and [l.strip() for l in open(cfgpath) if "Export" in l and "=" in l]}
+           "skipped_no_counterpart": getattr(pool, "skipped", 0), "replay_stride": stride, "export_sampling": open(cfgpath).read().count("ExportStride") and [l.strip() for l in open(cfgpath) if "Export" in l and "=" in l]}
     return res
 
 
@@ -1140,6 +1143,45 @@ def run_scripts_traced_plain(scripts, outdir, tag, flavor="plain"):
     return out
 
 
+def fam_cxx(tier, outdir):
+    """The drain / run / stop / destroy / stream scripts replayed through reproc++ (process, drain.hpp, run.hpp and the
+    destructor) instead of the C API: same TLC-generated scripts, same predictions (harness/cxx/shim.cpp, driver --cxx).
+    Scripts using forms without a C++ counterpart (NULL handle, NULL buffer, fork mode, string sink with allocation
+    failure, positive sink results, multi-source poll) are skipped and counted."""
+    exes = (vlib.build_driver_cxx("plain"), vlib.build_driver_cxx("asan"))
+    q = tier == "quick"
+    agg = None
+    drain_c = {"Handles": "{1}", "MaxTime": 1, "MaxCalls": 4, "PipeCap": 4, "MaxOut": 2 if q else 3, "ExitCodes": "{3}", "TermDelay": 1, "Inputs": "{99}",
+               "ReadSizes": "{}", "WriteSizes": "{}", "DlOpts": "{0, 1}", "Mode": '"drain"', "SinkFails": "{2}" if q else "{1, 3}", "NbOpts": "{FALSE}" if q else "{TRUE, FALSE}"}
+    run_c = {"Handles": "{1}", "MaxTime": 3, "MaxCalls": 1, "PipeCap": 4, "MaxOut": 2, "ExitCodes": "{3}", "TermDelay": 1, "DlOpts": "{0, 1}",
+             "SinkFails": "{1, 3}", "Policies": "{0, 2}" if q else "{0, 1, 2, 3}"}
+    jobs = [("cxx_drain", "MC_Stream", drain_c, 1), ("cxx_run", "MC_Run", run_c, 1)]
+    if not q:
+        jobs += [
+            ("cxx_destroy", "MC_Destroy", {"Handles": "{1}", "MaxTime": 5, "MaxCalls": 4, "PipeCap": 4, "MaxOut": 0, "ExitCodes": "{3}", "TermDelay": 1, "DlOpts": "{0, 2}",
+                                           "Timeouts": "{0, 2}", "ThirdActs": '"Small"', "StrictFailedStart <- Loose": None}, 1),
+            ("cxx_stream", "MC_Stream", {"Handles": "{1}", "MaxTime": 0, "MaxCalls": 5, "PipeCap": 4, "MaxOut": 2, "ExitCodes": "{3}", "TermDelay": 1, "Inputs": "{99, 3, 5}",
+                                         "ReadSizes": "{0, 1, 3}", "WriteSizes": "{0, 3, 5}", "DlOpts": "{0}", "Mode": '"io"', "SinkFails": "{}", "NbOpts": "{TRUE, FALSE}"}, 1),
+        ]
+    for name, module, consts, stride in jobs:
+        sdir = os.path.join(outdir, name)
+        os.makedirs(sdir)
+        cfg = os.path.join(sdir, module + ".cfg")
+        write_cfg(cfg, "Spec", consts, ["TypeOK"], export_stride=stride)
+        res = run_tlc_export(name, module, cfg, sdir, tier, asan_stride=4, tlc_workers=8, exes=exes, driver_args=["--cxx"])
+        if agg is None:
+            agg = res; agg["family"] = "cxx"; agg["parts"] = [(name, res["scripts"], res.get("skipped_no_counterpart", 0))]
+        else:
+            for k in ("scripts", "replayed", "ok", "asan_replayed"):
+                agg[k] += res[k]
+            agg["bad"] += res["bad"]; agg["samples"] += res["samples"][:1]
+            agg["tlc"]["states"] += res["tlc"]["states"]; agg["tlc"]["transitions"] += res["tlc"]["transitions"]
+            agg["parts"].append((name, res["scripts"], res.get("skipped_no_counterpart", 0)))
+    for b in agg["bad"]:
+        b["cxx"] = 1
+    return agg
+
+
 def fam_destroy(tier, outdir):
     consts = {"Handles": "{1}", "MaxTime": 5, "MaxCalls": 4, "PipeCap": 4, "MaxOut": 0, "ExitCodes": "{3}", "TermDelay": 1,
               "DlOpts": "{0, 2}", "Timeouts": "{0, 2}", "ThirdActs": '"Small"', "StrictFailedStart <- Loose": None}
@@ -1199,7 +1241,7 @@ def run_tlc_plain(name, module, cfgpath, outdir, timeout=1500, workers=8):
     return st
 
 
-FAMILIES = {"anyfault": fam_anyfault, "realstatus": fam_realstatus, "real": fam_real, "optprod": fam_optprod, "free": fam_free, "env2": lambda t, o: fam_launch("env2", t, o), "two": fam_two, "restart": fam_restart, "threads": fam_threads, "conc": fam_conc, "wincmd": fam_wincmd, "wrapper": fam_wrapper, "faults": fam_faults, "env": lambda t, o: fam_launch("env", t, o), "wiring": lambda t, o: fam_launch("wiring", t, o), "options": lambda t, o: fam_launch("options", t, o),
+FAMILIES = {"cxx": fam_cxx, "anyfault": fam_anyfault, "realstatus": fam_realstatus, "real": fam_real, "optprod": fam_optprod, "free": fam_free, "env2": lambda t, o: fam_launch("env2", t, o), "two": fam_two, "restart": fam_restart, "threads": fam_threads, "conc": fam_conc, "wincmd": fam_wincmd, "wrapper": fam_wrapper, "faults": fam_faults, "env": lambda t, o: fam_launch("env", t, o), "wiring": lambda t, o: fam_launch("wiring", t, o), "options": lambda t, o: fam_launch("options", t, o),
             "destroy": fam_destroy, "status": fam_status, "run": fam_run, "stop": fam_stop, "life": fam_life, "poll": fam_poll, "stream": fam_stream, "drain": fam_drain}
 
 PROPS = {
@@ -1224,8 +1266,9 @@ PROPS = {
             "technique": "TLA+ mapping model (Wrapper.tla) enumerated by TLC; every point replayed through reproc++ over a mock C API (conformance)"},
     "C14": {"families": ["life", "free"], "title": "life cycle; misuse errors, never UB"},
     "C02": {"families": ["stream", "free"], "title": "stream fidelity"},
+    # (thorough: the destroy scripts also run through the C++ destructor in C16's cxx family)
     "C15": {"families": ["destroy", "free"], "title": "destroy applies the stop policy"},
-    "C16": {"families": ["drain", "run", "free"], "title": "drain and run"},
+    "C16": {"families": ["drain", "run", "cxx", "free"], "title": "drain and run"},
     "C17": {"families": ["stream", "free"], "title": "nonblocking never blocks; blocking waits only for the child"},
     "C08": {"families": ["poll", "free"], "title": "deadlines and timeouts bound every wait and poll"},
     "C09": {"families": ["poll", "stream", "free"], "title": "poll reports exactly the true events"},
